@@ -26,6 +26,7 @@ func Select(site string, chans ...interface{}) (int, reflect.Value) {
 	start := 0
 	step := 1
 	if w := Cur(); w != nil && n > 1 {
+		w.Counter("probe:select_executed")
 		r := w.Rand("select:" + w.GSeq(g, "select:"+site))
 		start = int(r % uint64(n))
 		if (r>>32)&1 == 1 {
@@ -37,6 +38,16 @@ func Select(site string, chans ...interface{}) (int, reflect.Value) {
 			continue
 		}
 		if x, ok := vals[i].TryRecv(); ok || x.IsValid() {
+			if w := Cur(); w != nil {
+				// reach probe: another case was ready as well, i.e. the keyed order decided (a lower bound: the
+				// length of a timer channel is always 0, so a pending tick is only seen when it is the one taken)
+				for j, v := range vals {
+					if j != i && v.IsValid() && !v.IsNil() && v.Len() > 0 {
+						w.Counter("probe:select_several_cases_ready")
+						break
+					}
+				}
+			}
 			return i, x
 		}
 	}
